@@ -13,6 +13,8 @@ from ..util import names_in
 
 def run(ctx, col, tier):
     repo = ctx.repo
+    from ..rules import idxguard as _idxguard
+    _idxguard.run(ctx, col, ('swcgeom.core.tree', 'swcgeom.core.path', 'swcgeom.core.branch', 'swcgeom.core.node', 'swcgeom.core.compartment'), floor=1)
     from ..rules import smalllints as _small_own
     col.rule("R-OWNLIST", "every tree object has its own comment list: the constructor binds a fresh list to self.comments on every path (the class-level default list is shared by "
              "all objects that do not); edits of one side's comments cannot leak into the other", floor=1)
